@@ -141,7 +141,8 @@ def _sx_py(n) -> str:
         return ("(If " + _sx_py(n.test) + " (body" + "".join(" " + _sx_py(c) for c in n.body) + ") (orelse"
                 + "".join(" " + _sx_py(c) for c in n.orelse) + "))")
     kids = list(ast.iter_child_nodes(n))
-    name = type(n).__name__
+    # (`async for` and `try / except*` are the skeleton's for loop and try statement in another spelling: add_async_variants)
+    name = {"AsyncFor": "For", "TryStar": "Try"}.get(type(n).__name__, type(n).__name__)
     if not kids:
         return name
     return "(" + name + "".join(" " + _sx_py(c) for c in kids) + ")"
@@ -276,6 +277,35 @@ def add_layout_noise(rng, lang: str, lean: dict) -> None:
     lean["layout_noise"] = len(shift_at)
 
 
+def add_async_variants(rng, lean: dict) -> None:
+    """Python: inside coroutines some `for` loops become `async for`, and in some files every `except E:` becomes `except* E:` - the same
+    loops and try statements of the skeleton in another spelling, so no depth changes.  Rewrites lean["text"] (line numbers stay)."""
+    import ast
+    lines = lean["text"].split("\n")
+    star = rng.random() < 0.3 and not any(ln.strip() == "except:" for ln in lines)
+    stack, out, n_for, n_star = [], [], 0, 0          # stack of (indent of a def line, is it a coroutine)
+    for ln in lines:
+        st = ln.strip()
+        ind = len(ln) - len(ln.lstrip())
+        if st:
+            while stack and ind <= stack[-1][0]:
+                stack.pop()
+        if st.startswith(("def ", "async def ")):
+            stack.append((ind, st.startswith("async ")))
+        elif st.startswith("for ") and stack and stack[-1][1] and rng.random() < 0.6:
+            ln, n_for = ln[:ind] + "async " + st, n_for + 1
+        elif star and st.startswith("except ") and st.endswith(":"):
+            ln, n_star = ln[:ind] + "except* " + st[len("except "):], n_star + 1
+        out.append(ln)
+    text = "\n".join(out)
+    try:
+        ast.parse(text)
+    except SyntaxError:
+        return
+    lean["text"] = text
+    lean["async_for"], lean["except_star"] = n_for, n_star
+
+
 def evaluate(cases: list[dict], rng, res: core.Result, procs: int = 16, full_sweep: bool = True):
     drv = core.Driver()
     leans = drv.batch(cases)
@@ -291,6 +321,8 @@ def evaluate(cases: list[dict], rng, res: core.Result, procs: int = 16, full_swe
             keep = {1, maxdoc + 1} | {x for f in l["fns"] for x in (f["doc"] - 1, f["doc"], f["depth"] - 1, f["depth"])}
             limits = [x for x in limits if x in keep]
         cli_limit = rng.choice(limits)
+        if c["lang"] == "py" and rng.random() < 0.5:
+            add_async_variants(rng, l)
         if rng.random() < 0.35:
             add_layout_noise(rng, c["lang"], l)
         work.append((i, c["lang"], l["text"], limits, cli_limit, str(root)))
@@ -306,6 +338,8 @@ def evaluate(cases: list[dict], rng, res: core.Result, procs: int = 16, full_swe
         res.bump("max_documented_depth", maxdoc)
         res.bump("functions_per_file", len(c["fns"]))
         res.bump("layout", "blank / comment lines inserted before clauses and statements" if l.get("layout_noise") else "as rendered")
+        if l.get("async_for") or l.get("except_star"):
+            res.bump("python spelling variants", ("async for " if l.get("async_for") else "") + ("except*" if l.get("except_star") else ""))
         for f in c["fns"]:
             res.bump("wrap", f["wrap"])
         for k in _kinds(c):
@@ -448,10 +482,38 @@ def project_mode(rng, n: int, res: core.Result):
                 note=f"multi-language run with per-language limits {eff}: implementation {im.get('vs')} (exit {im.get('exit')}), model {exp_m}"[:3000]))
 
 
+# documented constructs that the skeleton family does not contain: fixed examples (tests, not the unbounded claim)
+RUST_ASYNC_PROBES = [
+    ("async fn f(a: bool) {\n    let x = async {\n        if a {\n            for i in 0..3 {\n                g(i);\n            }\n        }\n    };\n}\n", "f", 4),
+    ("fn k(a: bool) {\n    let y = async move {\n        while a {\n            h();\n        }\n    };\n}\n", "k", 3),
+    ("fn m(a: bool) {\n    if a {\n        let z = async { loop { h(); } };\n    }\n}\n", "m", 4),
+]
+
+
+def construct_probes(res: core.Result):
+    import re as _re
+    root = core.scratch_dir("c01p")
+    try:
+        for i, (text, name, doc) in enumerate(RUST_ASYNC_PROBES):
+            f = root / f"probe{i}.rs"
+            f.write_text(text)
+            code, stdout = core.run_cli(["nesting", "--max-depth", "1", "--format", "json", str(f)], cwd=root)
+            vs = core.violations_json(stdout) or []
+            got = [int(m.group(1)) for v in vs for m in [_re.search(r"'" + name + r"' has excessive nesting depth \((\d+)\)", v["message"])] if m]
+            res.evaluations += 1
+            res.bump("fixed examples", "rust async block")
+            if got != [doc]:
+                res.disagreements.append(core.Disagreement(case={"level": "fixed example", "lang": "rs", "text": text}, impl=got, model=None, spec=doc, property_fails=True,
+                                                           note=f"Rust `async` block (documented as a nesting construct): function {name} has documented depth {doc}, implementation reports {got}"))
+    finally:
+        shutil.rmtree(root, ignore_errors=True)
+
+
 def run(tier: str, seed: int, st: core.ProofStatus) -> core.Result:
     res = core.Result()
     res.rule = ("seeded random control skeletons (1-6 functions per file; plain / method / arrow / async / function-expression / generator forms, also declared under a compound statement, in a namespace / module, an inner class or a trait; all "
                 "constructs of the language, depth <= 9) rendered by the Lean model; limits 1..depth+2 (quick: the flip points of every function); "
+                "Python: some loops of coroutines spelled `async for`, some files with `except*` handlers; three fixed Rust examples with `async` blocks; "
                 "a case is non-trivial when some function has documented depth >= 2; distinct = distinct skeleton lists")
     rng = core.sub_rng(seed, PROP, tier)
     n = 100 if tier == "quick" else 2500
@@ -472,6 +534,7 @@ def run(tier: str, seed: int, st: core.ProofStatus) -> core.Result:
     evaluate(cases, rng, res, full_sweep=(tier == "thorough"))
     cross_language(rng, 25 if tier == "quick" else 400, res)
     project_mode(rng, 40 if tier == "quick" else 600, res)
+    construct_probes(res)
     res.assumptions += ["CPython ast / tree-sitter grammars are trusted; their output on rendered skeletons is compared with the model's shape functions",
                         "expressions never contain control flow (comprehensions, lambdas, ternaries are outside the program family)"]
     return res
